@@ -59,6 +59,21 @@ CHECKS = {
             "Trusted base: harness/girsem.py (common GIR semantics), harness/gen_core.py renderers (syntactic; Go/PHP/TypeScript not cross-checked "
             "against a native toolchain on this image) and the K interpreter.",
             "DESIGN.md 3/C02"),
+    "C08": ("Hypothesis-generated value programs; CPython ground truth over all 2^k branch valuations vs lian's P3 state sets (cover relation); metamorphic hostile-literal substitution",
+            "For generated Python programs (constants, arithmetic, concatenation, allocation, fields, elements, aliases, helper calls, branches, "
+            "one-iteration loops) every concrete value of every executed definition must be covered by the abstract state set of that definition "
+            "(equal constant / state of the object's class / explicit unknown). Metamorphic clause: substituting one string constant by a hostile one "
+            "must not change the abstract values of unrelated definitions, the outcome or the number of statement visits, and the hostile constant "
+            "itself must be covered.",
+            "Trusted base: harness/valcheck.py (reading of Symbol/State records; object coverage is class-level at definitions, field contents are "
+            "checked at reads); step count = wrapped compute_stmt_states calls.",
+            "DESIGN.md 3/C08"),
+    "C09": ("Hypothesis-generated loop-free value programs; exact collecting semantics by enumerating all 2^k branch valuations under CPython vs lian's abstract constants",
+            "For loop-free generated programs (no correlated binary operands by construction) the set of regular abstract constants of every integer / "
+            "string definition must EQUAL the set of concrete values over all executions (no missing value, no retained overwritten value, no value "
+            "from another field, object or call site, no unknown state); binary operations must yield exactly the results of the operand combinations.",
+            "Trusted base: harness/valcheck.py; every CFG path is feasible because each branch has its own opaque parameter; lists are excluded.",
+            "DESIGN.md 3/C09"),
 }
 
 NOT_YET = {}
